@@ -58,6 +58,45 @@ def edge_points(ctx, rng, per_edge):
     return pts, len(edges)
 
 
+def axis_seam_points(ctx):
+    """points where an icosahedron edge crosses the equator, the prime meridian or the antimeridian: a coordinate is
+    ~0 (or ~pi) there while the same geometry is computed through two different face projections (relative vs
+    absolute floating-point precision)"""
+    a = ctx.c(["facecenters"], tag="fc")[0].split()
+    fc = [(bits2f(a[2 + 2 * i]), bits2f(a[3 + 2 * i])) for i in range(20)]
+    vs = [ll2v(*p) for p in fc]
+    pts = []
+    for i in range(20):
+        for j in range(i + 1, 20):
+            if ang_dist_v(vs[i], vs[j]) >= 0.75:
+                continue
+            mid = vnorm(vadd(vs[i], vs[j]))
+            along = vnorm(vcross(vs[i], vs[j]))
+
+            def P(t):
+                p = vnorm(vadd(vscale(mid, math.cos(t)), vscale(along, math.sin(t))))
+                return math.asin(max(-1, min(1, p[2]))), math.atan2(p[1], p[0])
+            for f in (lambda t: P(t)[0], lambda t: P(t)[1], lambda t: math.sin(P(t)[1])):
+                # roots of f on the edge (half length 0.5535), by sign changes on a grid + bisection
+                N = 400
+                ts = [-0.5535 + 1.107 * k / N for k in range(N + 1)]
+                for k in range(N):
+                    x0, x1 = ts[k], ts[k + 1]
+                    y0, y1 = f(x0), f(x1)
+                    if y0 == 0 or (y0 < 0) != (y1 < 0):
+                        if abs(y0 - y1) > 1.0:      # longitude wrap, not a root
+                            continue
+                        for _ in range(60):
+                            xm = 0.5 * (x0 + x1)
+                            ym = f(xm)
+                            if (ym < 0) == (y0 < 0):
+                                x0, y0 = xm, ym
+                            else:
+                                x1 = xm
+                        pts.append(P(0.5 * (x0 + x1)))
+    return pts
+
+
 def azimuth_points(ctx):
     """points due north / due south of each icosahedron face centre (the special-cased azimuths of
     _geoAzDistanceRads) where that meridian leaves the face, a few metres on either side of the face edge and a few
